@@ -438,7 +438,7 @@ func init() {
 	fw.Register(&fw.Property{
 		ID:        "C14",
 		Technique: "metamorphic monitor with recorded call log: every surface form of a call intent must render and call exactly like the plain call; built-ins compared differentially with the Go functions they expose",
-		Rule: "2/5 of the cases: a call intent (callee among reflected fixed-arity funcs, variadic funcs, value/pointer-receiver methods and a jet.Func; arguments among string/raw-string/number literals and variables needing conversion: named string, int8, uint16, float64) is printed as f(x,a,b), f: x,a,b, x | f: a,b, x | f(a,b) and with the '_' slot at every position (incl. the variadic tail); " +
+		Rule: "60 rebinding histories first (one Set, the same templates executed while the name of a built-in is rebound in VarMap and Set globals: x | f, x | g | f, x | f(), f: x and f(x) must all call what f resolves to in that execution); then 2/5 of the cases: a call intent (callee among reflected fixed-arity funcs, variadic funcs, value/pointer-receiver methods and a jet.Func; arguments among string/raw-string/number literals and variables needing conversion: named string, int8, uint16, float64) is printed as f(x,a,b), f: x,a,b, x | f: a,b, x | f(a,b) and with the '_' slot at every position (incl. the variadic tail); " +
 			"output and the recorded (callee, received arguments) log must equal the plain call's, with exactly one call; 1/5: pipelines of 2-4 stages (mixed forms and slots) against the nested plain calls, innermost first, each once; 1/5: 26 directed error cases (wrong count in every form, inconvertible or nil arguments incl. slots and variadic tails, misplaced SafeWriter stages, '_' without pipe) must fail without panicking; " +
 			"1/5: built-ins lower, upper, hasPrefix, hasSuffix, repeat, replace, split, trimSpace, html, url, json, writeJson, len (string, slice, map, array, *slice, **slice, struct, chan, interface), ints, map, slice/array on random arguments against the Go functions; non-trivial = intent with >=3 forms and an argument needing conversion; distinct by (callee, arity, argument kinds)",
 		Assumptions: []string{"numeric arguments that need conversion are integral (float truncation is Go's conversion rule)"},
